@@ -1,6 +1,7 @@
 package main
 
 import (
+	"os"
 	"fmt"
 	"math/big"
 	"math/rand"
@@ -32,6 +33,8 @@ func (c caseT) source() string {
 		return d
 	case "cplx":
 		return "var c0 = " + c.Type + "(" + c.Expr.src() + ")"
+	case "raw":
+		return c.Ctx + ": " + c.Src
 	}
 	return ""
 }
@@ -40,7 +43,7 @@ func implOfLocal(c caseT) outcome {
 	switch c.Kind {
 	case "repr":
 		return implRepr(c)
-	case "prog", "cplx":
+	case "prog", "cplx", "raw":
 		return implProg(c)
 	}
 	return "bad-case"
@@ -54,6 +57,8 @@ func refOf(c caseT) outcome {
 		return refProg(c)
 	case "cplx":
 		return refCplx(c)
+	case "raw":
+		return refRaw(c)
 	}
 	return "bad-case"
 }
@@ -406,7 +411,12 @@ func (g *gen) shift(cls string, d int) *exprT {
 	default:
 		cnt = lit("rune", fmt.Sprint(r.Intn(64)))
 	}
-	return bin([]string{"shl", "shr"}[r.Intn(2)], g.num(cls, d-1), cnt)
+	left := g.num(cls, d-1)
+	if cls == "I" && r.Intn(8) == 0 {
+		// the result of a constant shift is an untyped integer constant whatever the kind of the shifted constant
+		left = floatIntLit(r)
+	}
+	return bin([]string{"shl", "shr"}[r.Intn(2)], left, cnt)
 }
 
 func (g *gen) str(d int) *exprT {
@@ -533,6 +543,19 @@ func (g *gen) progCase(maxDepth int) caseT {
 		c.Ctx = "var"
 		g.iota = false
 		_, c.Expr = pick()
+		// `c0 := e` inside main. (The interface forms "iface" / "ifacelocal" are used by the default-type family only:
+		// on the general stream a constant expression with an interface destination is not folded at all — reported
+		// to the lead, not listed yet.)
+		if os.Getenv("VERIF_C03_IFACE") != "" {
+			switch r.Intn(8) {
+			case 0:
+				c.Form = "iface"
+			case 1:
+				c.Form = "ifacelocal"
+			}
+		} else if r.Intn(8) == 0 {
+			c.Form = "short"
+		}
 	case x < 12:
 		c.Ctx = "const"
 		g.iota = r.Intn(4) == 0
@@ -593,8 +616,10 @@ func generate(run *common.Run) []caseT {
 	cases = append(cases, fixedProgCases()...)
 	if run.Thorough() {
 		cases = append(cases, froundCases(run.Rng, 6000)...)
+		cases = append(cases, dtypeCases(run.Rng, 3000)...)
 	} else {
 		cases = append(cases, froundCases(run.Rng, 400)...)
+		cases = append(cases, dtypeCases(run.Rng, 300)...)
 	}
 	n := 3000
 	if run.Thorough() {
@@ -658,6 +683,10 @@ func fixedProgCases() []caseT {
 
 // signature returns the divergence class of the input ("" = inside the proved domain).
 func signature(c caseT, ans map[string]string) string {
+	if floatShift(c) {
+		// F03-23: the node of a constant shift keeps the untyped floating-point / complex type of its left operand
+		return "float-shift-type"
+	}
 	switch c.Kind {
 	case "repr":
 		// representableConst is exact for every kind and every integer since the repair of F03
